@@ -93,7 +93,7 @@ def build(kind, r):
         p.metadata.update(_meta(r["salt"]))
         return p
     if kind in ("path2d", "path3d"):
-        from trimesh.path.entities import Arc, Line
+        from trimesh.path.entities import Arc, BSpline, Line, Text
 
         sq = np.array([[0, 0], [2, 0], [2, 1.5], [0, 1.5]], dtype=float) + rs.uniform(-0.05, 0.05, (4, 2))
         circ = np.array([3.0, 0.5]) + 0.75 * np.array([[1, 0], [0, 1], [-1, 0], [0, -1]], dtype=float)
@@ -101,11 +101,19 @@ def build(kind, r):
         ents = [Line([0, 1, 2]), Line([2, 3, 0]), Arc([4, 5, 6]), Arc([6, 7, 4])]
         ents[0].color = [255, 0, 0, 255]
         ents[1].layer = "layer_b"
+        more = []
+        if r.get("extras"):
+            # entities that carry more than vertex references: a knot vector, an alignment pair
+            V = np.vstack([V, np.array([[5, 0], [5.5, 1], [6.5, 1], [7, 0], [4, 3]], dtype=float) + rs.uniform(-0.05, 0.05, (5, 2))])
+            more = [BSpline(points=[8, 9, 10, 11], knots=[0.0, 0.0, 0.0, 0.0, 1.0, 1.0, 1.0, 1.0]), Text(origin=12, text="label", align=["center", "center"], height=0.3)]
         if kind == "path3d":
             V = np.column_stack([V, rs.uniform(-0.2, 0.2, len(V))])
-            p = trimesh.path.Path3D(entities=ents[:2], vertices=V, process=False)
+            p = trimesh.path.Path3D(entities=ents[:2] + more[:1], vertices=V, process=False)
         else:
-            p = trimesh.path.Path2D(entities=ents, vertices=V, process=False)
+            p = trimesh.path.Path2D(entities=ents + more, vertices=V, process=False)
+        if r.get("acolors"):
+            # colours assigned as one array: every entity then holds an array, not a list
+            p.colors = np.column_stack([rs.randint(0, 256, (len(p.entities), 3)), np.full(len(p.entities), 255)]).astype(np.uint8)
         p.metadata.update(_meta(r["salt"]))
         if r.get("vattr"):
             p.vertex_attributes["width"] = np.arange(len(V), dtype=np.float64) * 0.125
@@ -150,11 +158,21 @@ def build(kind, r):
         n = 3
         dense = rs.uniform(size=(n, n, n + 1)) < 0.5
         dense[0, 0, 0] = True
+        if r.get("margin"):
+            dense[-1] = False
+            dense[:, :, 0] = False
+            dense[0, 1, 1] = True
         e = r.get("encoding", "dense")
         if e == "dense":
             en = enc.DenseEncoding(dense)
         elif e == "sparse":
             en = enc.SparseBinaryEncoding(np.column_stack(np.nonzero(dense)), shape=dense.shape)
+        elif e == "rle_transposed":
+            # what the binvox reader hands out: run lengths, reshaped, then transposed
+            en = enc.RunLengthEncoding(trimesh.voxel.runlength.dense_to_rle(dense.transpose((2, 0, 1)).reshape(-1), dtype=np.int64), dtype=bool).reshape((dense.shape[2], dense.shape[0], dense.shape[1])).transpose((1, 2, 0))
+        elif e == "sparse_transposed":
+            # (flipped wrappers are left out: FlippedEncoding.sparse_indices raises on the unmodified tree, which is not a copy question)
+            en = enc.SparseBinaryEncoding(np.column_stack(np.nonzero(dense.transpose((1, 0, 2)))), shape=(dense.shape[1], dense.shape[0], dense.shape[2])).transpose((1, 0, 2))
         else:
             en = enc.RunLengthEncoding(trimesh.voxel.runlength.dense_to_rle(dense.reshape(-1), dtype=np.int64), dtype=bool).reshape(dense.shape)
         T = np.diag([0.5, 0.5, 0.5, 1.0])
@@ -231,7 +249,7 @@ def observe(kind, o, deep=True):
             out.update({"volume": float(o.volume), "bounds": np.array(o.bounds), "area": float(o.area)})
         return out
     if kind in ("path2d", "path3d"):
-        out = {"vertices": np.array(o.vertices), "entities": [{"type": type(e).__name__, "points": np.array(e.points).tolist(), "closed": bool(e.closed), "color": _plain(e.color), "layer": e.layer} for e in o.entities], "metadata": _plain(dict(o.metadata)),
+        out = {"vertices": np.array(o.vertices), "entities": [{"type": type(e).__name__, "points": np.array(e.points).tolist(), "closed": bool(e.closed), "color": _plain(e.color), "layer": e.layer, "knots": _plain(getattr(e, "knots", None)), "align": _plain(getattr(e, "align", None)) if type(e).__name__ == "Text" else None} for e in o.entities], "metadata": _plain(dict(o.metadata)),
                "vertex_attributes": {k: np.array(v) for k, v in o.vertex_attributes.items()}}
         if deep:
             out.update({"length": float(o.length), "bounds": np.array(o.bounds), "n_paths": len(o.paths)})
@@ -294,11 +312,11 @@ EDITS = {
     "mesh": ["v_item", "v_iadd", "f_flip", "apply_transform", "apply_scale", "color_item", "meta_nested", "meta_new", "attr_item", "density", "center_mass", "update_faces", "invert", "merge_vertices", "assign_vertices", "v_sort", "visual_assign", "color_other_item"],
     "mesh_texture": ["v_item", "apply_transform", "uv_item", "material_color", "image_pixel", "meta_nested", "update_faces", "material_color_inplace", "uv2_item"],
     "primitive": ["param_set", "param_inplace", "transform_inplace", "apply_transform", "apply_scale", "meta_nested", "density", "apply_translation"],
-    "path2d": ["v_item", "entity_points", "entity_color", "entity_layer", "apply_transform", "meta_nested", "entity_reverse", "v_iadd", "vattr_item"],
-    "path3d": ["v_item", "entity_points", "entity_color", "entity_layer", "apply_transform", "meta_nested", "v_iadd", "vattr_item"],
+    "path2d": ["v_item", "entity_points", "entity_color", "entity_layer", "apply_transform", "meta_nested", "entity_reverse", "v_iadd", "vattr_item", "entity_color_inplace", "entity_knots_inplace", "entity_align_inplace"],
+    "path3d": ["v_item", "entity_points", "entity_color", "entity_layer", "apply_transform", "meta_nested", "v_iadd", "vattr_item", "entity_color_inplace", "entity_knots_inplace"],
     "points": ["v_item", "color_item", "apply_transform", "meta_nested", "v_iadd", "assign_fewer", "color_single"],
     "scene": ["edge_update", "geom_v_item", "geom_transform", "add_geometry", "delete_geometry", "meta_nested", "graph_setitem", "geom_color", "edge_meta_inplace", "geom_color_other", "camera_param", "camera_move", "light_param"],
-    "voxel": ["apply_transform", "apply_scale", "transform_inplace", "meta_nested", "encoding_item", "encoding_flat_inplace"],
+    "voxel": ["apply_transform", "apply_scale", "transform_inplace", "meta_nested", "encoding_item", "encoding_flat_inplace", "strip"],
 }
 
 
@@ -447,6 +465,20 @@ def apply_edit(kind, o, e):
             o.vertex_attributes["width"][i % nv] = -d
         elif k == "entity_color":
             ent.color = [i % 256, 1, 2, 255]
+        elif k == "entity_color_inplace":
+            if not isinstance(ent.color, np.ndarray):
+                raise Inapplicable()
+            ent.color[:3] = [i % 256, 1, 2]
+        elif k == "entity_knots_inplace":
+            sp = [x for x in o.entities if type(x).__name__ == "BSpline"]
+            if not sp:
+                raise Inapplicable()
+            sp[0].knots[4] = 0.25 + 0.5 * ((i % 7) / 7.0)
+        elif k == "entity_align_inplace":
+            tx = [x for x in o.entities if type(x).__name__ == "Text"]
+            if not tx:
+                raise Inapplicable()
+            tx[0].align[i % 2] = ["left", "right", "top", "bottom"][i % 4]
         elif k == "entity_layer":
             ent.layer = f"L{i}"
         elif k == "apply_transform":
@@ -552,6 +584,9 @@ def apply_edit(kind, o, e):
             except ValueError:
                 # a read-only matrix: in-place editing is refused, which certainly cannot leak
                 raise Inapplicable()
+        elif k == "strip":
+            # empty planes at the borders dropped (the grid keeps its cells where they were)
+            o.strip()
         elif k == "encoding_flat_inplace":
             # the array at the bottom of a lazily reshaped / transposed encoding (run lengths, sparse indices), edited in place
             e = o.encoding
@@ -652,8 +687,11 @@ class C17(World):
             r["lights"] = rng.random() < 0.3
         if kind in ("path2d", "path3d"):
             r["vattr"] = rng.random() < 0.5
+            r["extras"] = rng.random() < 0.5
+            r["acolors"] = rng.random() < 0.4
         if kind == "voxel":
-            r["encoding"] = rng.choice(["dense", "sparse", "rle"])
+            r["encoding"] = rng.choice(["dense", "sparse", "rle", "rle_transposed", "sparse_transposed"])
+            r["margin"] = rng.random() < 0.6
         return r
 
     def generate(self, rng, cfg):
